@@ -46,7 +46,7 @@ class CaseResult:
         return None if v is None else (v["property"], v["oracle"])
 
 
-def run_case(prop, cfg, ops, opts=None, wall=20):
+def run_case(prop, cfg, ops, opts=None, wall=60):
     """One simulated run.  Never raises for violations; harness errors are
     returned in .harness."""
     r = CaseResult()
